@@ -694,9 +694,51 @@ def map_literals_and_copies(rng):
     return {"runs": [(P([("end", keep)]), [])]}
 
 
+def parameter_redeclaration(rng):
+    """reference-dsl-variables.md: 'subr s(a, str b, int c) { var b = 100; # error  # Re-declaration in the same scope is disallowed';
+    a declaration in a nested block of the body is an ordinary shadow."""
+    kw = rng.choice(["var", "int", "num"])
+    nested = rng.random() < 0.4
+    decl = ("decl", kw, "b", I(rng.randint(0, 99)))
+    inner = [("if", [(("bool", True), [decl, pr(Sx("shadow"), L("b"))])], None)] if nested else [decl]
+    body = [pr(Sx("in"), L("b"))] + inner + [pr(Sx("after"), L("b"))]
+    if rng.random() < 0.5:
+        prog = [("subr", "s", [(None, "a"), (rng.choice([None, "int"]), "b")], body), ("end", [pr(Sx("start")), ("call", "s", [I(1), I(2)]), pr(Sx("done"))])]
+    else:
+        prog = [("func", "f", [(None, "a"), (rng.choice([None, "int"]), "b")], None, body + [("return", L("b"))]),
+                ("end", [pr(Sx("start")), pr(("ucall", "f", [I(1), I(2)])), pr(Sx("done"))])]
+    return {"runs": [(P(prog), [])]}
+
+
+def positional_rename_then_access(rng):
+    """after `$[[n]] = "new"` the field is known by its new name only (reference-dsl-variables.md, positional field names)."""
+    recs = G.gen_records(rng, rng.randint(1, 3), hetero=False)
+    n = rng.randint(1, 5)
+    old = list(recs[0].keys())[n - 1]
+    same_order = all(list(r.keys()) == list(recs[0].keys()) for r in recs)
+    if not same_order:
+        recs = recs[:1]
+    stmts = [asg(("posname", I(n)), Sx("renamed"))]
+    choices = [asg(F("copy_old"), F(old)), asg(F("copy_new"), F("renamed")), asg(F(old), I(77)), ("unset", [F(old)]),
+               pr(call("typeof", F(old)), call("typeof", F("renamed"))), asg(F("renamed"), Sx("v")), asg(F("nf"), ("ctx", "NF")),
+               pr(call("haskey", ("srec",), Sx(old)), call("haskey", ("srec",), Sx("renamed")))]
+    stmts += rng.sample(choices, rng.randint(1, 4))
+    return {"runs": [(P(stmts), recs)]}
+
+
+def self_referential_indexed_assignment(rng):
+    base = rng.choice([L("m"), O("m")])
+    init = rng.choice([("map", []), ("map", [(Sx("a"), I(1))])])
+    keys = [Sx("k"), I(rng.randint(1, 3)), Sx("z")][:rng.choice([1, 2, 2, 3])]
+    rhs = rng.choice([base, call("mapsum", base, ("map", [])), call("mapdiff", base), ("map", [(Sx("copy"), base)])])
+    stmts = [asg(base, init), asg(("index", base, keys), rhs), pr(base)]
+    return {"runs": [(P([("end", stmts)]), [])]}
+
+
 SHAPES = {f.__name__: f for f in [
     shadow_inner_var, undeclared_updates_enclosing, locals_not_visible_in_callee, recursion_frames, loop_variables_scoped,
     by_value_arguments, oosvars_persist_and_private, field_positions, typed_declarations, indexing_shapes, autocreate_shapes,
     string_slices, emit_family, emit_other, filter_shapes, hof_shapes, loop_copy_semantics, for_typed_bind_variables,
     for_parenthesized_single_key, unset_shapes, begin_end_order, positional_names, break_continue_nested, absent_rules,
-    op_assignments, presets, dot_and_types, map_literals_and_copies]}
+    op_assignments, presets, dot_and_types, map_literals_and_copies, parameter_redeclaration,
+    positional_rename_then_access, self_referential_indexed_assignment]}
